@@ -70,32 +70,110 @@ def check_keys(run):
             ops.append(ks)
         cases.append(ops)
     modes = [(True, False, False), (False, False, False), (True, True, True), (False, True, True)]
+    # one tensordict per distinct (ordered) key list; both branches patched once around the whole sweep
+    made = {}
+
+    def mk_cached(ks):
+        key = tuple(_enc(k) for k in ks)
+        if key not in made:
+            made[key] = mk(ks)
+        return made[key]
+
+    pending = []
     for ci, ops in enumerate(cases):
-        tds = [mk(ks) for ks in ops]
+        tds = [mk_cached(ks) for ks in ops]
         for strict, inc, leaves in (modes if ci % 4 == 0 or len(ops) > 2 else modes[:2] if ci % 2 else modes[2:]):
-            outs = []
-            for comp in (False, True):
-                with mock.patch.object(U, "is_compiling", lambda c=comp: c):
-                    try:
-                        outs.append(_canon(U._check_keys(tds, strict=strict, include_nested=inc, leaves_only=leaves), strict))
-                    except KeyError:
-                        outs.append("KeyError")
-                    except Exception as e:
-                        outs.append("err:" + type(e).__name__)
             views = [[_enc(k) for k in td.keys(include_nested=inc, leaves_only=leaves)] for td in tds]
             req = "(c18.check_keys " + ("strict" if strict else "loose") + "".join(" (" + " ".join(v) + ")" for v in views) + ")"
-            m = parse_sx(drv.ask(req))
-            rel = "equal" if all(set(v) == set(views[0]) for v in views) else (
-                "later-extra" if all(set(views[0]) <= set(v) for v in views[1:]) else
-                "later-missing" if all(set(v) <= set(views[0]) for v in views[1:]) else "mixed")
-            run.case(("check_keys", req))
-            run.count("check_keys.relation", rel)
-            run.count("check_keys.mode", ("strict" if strict else "loose") + ("+nested" if inc else ""))
-            run.count("check_keys.operands", len(ops))
-            run.corr("check_keys_eager", req, outs[0], _canon_model(m[0]))
-            run.corr("check_keys_compile", req, outs[1], _canon_model(m[1]))
-            if outs[0] != outs[1]:
-                run.oracle_fail("check_keys", {"request": req, "strict": strict}, f"eager branch={outs[0]} compile branch={outs[1]}", "check_keys:" + rel)
-            else:
-                run.oracle_ok("check_keys")
+            pending.append((tds, strict, inc, leaves, views, req, len(ops)))
+    results = {False: [], True: []}
+    for comp in (False, True):
+        with mock.patch.object(U, "is_compiling", lambda c=comp: c):
+            for tds, strict, inc, leaves, views, req, nops in pending:
+                try:
+                    results[comp].append(_canon(U._check_keys(tds, strict=strict, include_nested=inc, leaves_only=leaves), strict))
+                except KeyError:
+                    results[comp].append("KeyError")
+                except Exception as e:
+                    results[comp].append("err:" + type(e).__name__)
+    answers = drv.ask_many([p[5] for p in pending])
+    for i, (tds, strict, inc, leaves, views, req, nops) in enumerate(pending):
+        outs = [results[False][i], results[True][i]]
+        m = parse_sx(answers[i])
+        rel = "equal" if all(set(v) == set(views[0]) for v in views) else (
+            "later-extra" if all(set(views[0]) <= set(v) for v in views[1:]) else
+            "later-missing" if all(set(v) <= set(views[0]) for v in views[1:]) else "mixed")
+        run.case(("check_keys", req))
+        run.count("check_keys.relation", rel)
+        run.count("check_keys.mode", ("strict" if strict else "loose") + ("+nested" if inc else ""))
+        run.count("check_keys.operands", nops)
+        run.corr("check_keys_eager", req, outs[0], _canon_model(m[0]))
+        run.corr("check_keys_compile", req, outs[1], _canon_model(m[1]))
+        if outs[0] != outs[1]:
+            run.oracle_fail("check_keys", {"request": req, "strict": strict}, f"eager branch={outs[0]} compile branch={outs[1]}", "check_keys:" + rel)
+        else:
+            run.oracle_ok("check_keys")
     run.sample({"stream": "check_keys", "case": "(c18.check_keys strict (a b) (b a c))", "model": drv.ask("(c18.check_keys strict (a b) (b a c))")})
+
+
+def seq_keys(run):
+    """`TensorDictSequential.forward` (selected out keys): the list handed to `tensordict.update(keys_to_update=…)`
+    on both branches (forced by patching `is_compiling` in tensordict.nn.sequence), recorded through a
+    TensorDict subclass; model = CheckKeys.seqKeysEager / seqKeysCompile; oracle: same final tensordict."""
+    import tensordict.nn.sequence as S
+    from tensordict import TensorDict
+    from tensordict.nn import TensorDictModule, TensorDictSequential
+
+    drv = run._drv
+    rng = run.rng
+    rec = []
+
+    class RecTD(TensorDict):
+        _is_input = False
+
+        def update(self, other, **kw):
+            if self.__dict__.get("_rec_input") and kw.get("keys_to_update") is not None:
+                rec.append([_enc(k) for k in kw["keys_to_update"]])
+            return super().update(other, **kw)
+
+    pool = ["a", "b", ("n", "x"), ("n", "y"), "c"]
+    n = 40 if run.tier == "quick" else 600
+    for _ in range(n):
+        in_keys = rng.sample(pool, rng.randint(1, 4))
+        mods = []
+        outs = []
+        for j in range(rng.randint(1, 3)):
+            ik = rng.choice(in_keys + outs)
+            ok = rng.choice([f"o{j}", ("n", f"o{j}"), rng.choice(in_keys)])
+            mods.append(TensorDictModule(lambda x: x + 1, in_keys=[ik], out_keys=[ok]))
+            outs.append(ok)
+        sel = rng.sample(outs, rng.randint(1, len(outs)))
+        seq = TensorDictSequential(*mods, selected_out_keys=sel)
+        results = []
+        recs = []
+        for comp in (False, True):
+            td = RecTD({}, batch_size=[2])
+            for k in in_keys:
+                td.set(k, torch.zeros(2))
+            td.__dict__["_rec_input"] = True
+            rec.clear()
+            with mock.patch.object(S, "is_compiling", lambda c=comp: c):
+                try:
+                    out = seq(td)
+                    results.append(sorted((_enc(k), v.tolist()) for k, v in out.items(True, True)))
+                except Exception as e:
+                    results.append("err:" + type(e).__name__)
+            recs.append(sorted(rec[-1]) if rec else None)
+        out_keys = [_enc(k) for k in seq.out_keys]
+        td_keys = [_enc(k) for k in in_keys]
+        # the leaves of the input, in its own order
+        m = parse_sx(drv.ask("(c18.seq_keys (" + " ".join(out_keys) + ") (" + " ".join(td_keys) + "))"))
+        run.case(("seq_keys", tuple(out_keys), tuple(td_keys)))
+        run.count("seq_keys.recorded", recs[0] is not None)
+        if recs[0] is not None and recs[1] is not None:
+            run.corr("seq_keys_eager", [out_keys, td_keys], recs[0], sorted(m[0]))
+            run.corr("seq_keys_compile", [out_keys, td_keys], recs[1], sorted(m[1]))
+        if results[0] != results[1]:
+            run.oracle_fail("seq_forward", {"in": td_keys, "out": out_keys}, f"eager branch={results[0]} compile branch={results[1]}", "seq_forward")
+        else:
+            run.oracle_ok("seq_forward")
